@@ -232,7 +232,7 @@ def history_strategy(max_n):
         ninst = draw(st.integers(1, 3))
         n = draw(st.integers(1, max_n))
         requests = [[draw(st.integers(0, ninst - 1)), draw(req)] for _ in range(n)]
-        return {"start": draw(st.sampled_from(["0", "1", "2.5"])), "dt": draw(st.sampled_from(["1", "0.5", "0.25"])),
+        return {"start": draw(st.sampled_from(["0", "1", "2.5", "8", "9.5", "98"])), "dt": draw(st.sampled_from(["1", "0.5", "0.25"])),
                 "equations": draw(st.sampled_from([["s"], ["s", "f"], ["k", "c", "s"]])), "ninst": ninst, "requests": requests,
                 "compress": draw(st.booleans())}
     return build()
